@@ -403,3 +403,12 @@ mod tests {
         assert_eq!(sum, 0);
     }
 }
+
+// Verification hook (pass-through to the private header update; compiled
+// only with `--cfg rust_vmm_acpi_tables_verif`).
+#[cfg(rust_vmm_acpi_tables_verif)]
+impl SRAT {
+    pub fn verif_update_header(&mut self, len: u32, sum: u8) {
+        self.update_header(len, sum)
+    }
+}
